@@ -200,7 +200,9 @@ structure RawInfo where
 
 /-- header decode with sign extension (inp_raw.c:72-85) -/
 def csizeOf (h : List Nat) : Int :=
-  let c : Nat := h.getD 0 0 * 16777216 + h.getD 1 0 * 65536 + h.getD 2 0 * 256 + h.getD 3 0
+  -- (b0 << 24) + (b1 << 16) + (b2 << 8) + b3, written in Horner form (products with huge literals make
+  -- the Lean kernel unfold `Nat.mul` millions of times when it has to evaluate a stuck `if`)
+  let c : Nat := ((h.getD 0 0 * 256 + h.getD 1 0) * 256 + h.getD 2 0) * 256 + h.getD 3 0
   if c / 2147483648 % 2 = 1 then (c : Int) - 4294967296 else (c : Int)
 
 /-- `mpz_inp_raw_p` (inp_raw.c:64): decode the header, reallocate, and — before any data is read —
